@@ -4,7 +4,7 @@
    yaql/__init__.py, collections.py, strings.py by harness/props/c08.py);
    registry and interpreter facts are regenerated into Gen/LimitFacts.v. *)
 From Coq Require Import List ZArith Bool Arith.
-From YV Require Import Common.Corr Model.Limits Lemmas.Limits Gen.LimitFacts Lemmas.LimitsFacts.
+From YV Require Import Common.Corr Model.Limits Lemmas.Limits Lemmas.LimitsCalls Gen.LimitFacts Lemmas.LimitsFacts.
 Import ListNotations.
 Open Scope Z_scope.
 
@@ -46,6 +46,29 @@ Theorem C08_quota_threshold : forall Q xs,
              exists k, (1 <= k <= length xs)%nat /\ total_weight (firstn k xs) > Q)) /\
   (Q <= 0 -> limit_memory_usage Q xs = false).
 Proof. exact quota_threshold. Qed.
+
+(* The quota along ANY tree of calls f1(f2(...), g(...), ...) (values are their own sizes, functions are
+   arbitrary size transformers, the two check points are SmartType.convert on every argument and
+   runner.call on every result).  For Q > 0:
+   - every size that is bound to a parameter of a payload or returned by a call fits Q (the log);
+   - if the evaluation returns, its value is the value computed without a quota and every argument and
+     every result anywhere inside the expression fits Q;
+   - it raises only if some argument or result inside exceeds Q. *)
+Theorem C08_no_over_quota_value_passed_on : forall Q e, 0 < Q ->
+  Forall (fun s => s <= Q) (snd (ceval Q e)) /\
+  (forall r, fst (ceval Q e) = Some r -> r = csize e /\ Forall (fun s => s <= Q) (cpoints e)) /\
+  (fst (ceval Q e) = None -> Exists (fun s => s > Q) (cpoints e)).
+Proof. exact no_over_quota_value_passed_on. Qed.
+
+(* a whole statement '#finalize'(e): what the host receives fits the quota, and so did the value of e
+   when it was handed over (host data returned untouched included) *)
+Theorem C08_statement_result_fits : forall Q fin e r, 0 < Q ->
+  fst (crun Q fin e) = Some r -> r <= Q /\ csize e <= Q /\ r = fin [csize e].
+Proof. exact statement_result_fits. Qed.
+
+(* without a quota (Q <= 0) the protocol is transparent *)
+Theorem C08_quota_off_identity : forall Q, Q <= 0 -> forall e, fst (ceval Q e) = Some (csize e).
+Proof. exact quota_off_identity. Qed.
 
 (* the estimate of `x * c` (strings; sequences after the repair of F6) refuses whenever the
    product would exceed the quota - for every size function obeying the linear law.
@@ -116,6 +139,12 @@ Example C08_example_keys :
      = Ok (VDict [(VTuple [z; z], VInt 1)])
   /\ finalize 4 {| tuples_to_lists := true; sets_to_lists := false |} (VDict [(VTuple [z; z], VInt 1)]) = Unhashable.
 Proof. vm_compute. repeat split. Qed.
+Example C08_example_calls :
+  let cat := fun l : list Z => fold_right Z.add (-41) (map (fun z => z - 41 + 41) l) - 41 * (Z.of_nat (length l) - 2) in
+  let e := CApp cat [CVal 71; CApp cat [CVal 71; CVal 71]] in      (* a + (b + c), 30 characters each *)
+  csize e = 131 /\ fst (crun 131 (fun l => hd 0 l) e) = Some 131 /\ fst (crun 130 (fun l => hd 0 l) e) = None
+  /\ snd (crun 130 (fun l => hd 0 l) e) = [71; 71; 101; 71; 101].
+Proof. vm_compute. repeat split. Qed.
 Example C08_example_quota :
   limit_memory_usage 100 [(1, 60); (1, 41)] = true /\ limit_memory_usage 101 [(1, 60); (1, 41)] = false
   /\ limit_memory_usage 100 [(3, 50); (- 2, 50)] = true   (* early exit on a prefix *)
@@ -136,6 +165,9 @@ Print Assumptions C08_limit_sized.
 Print Assumptions C08_result_width.
 Print Assumptions C08_finalize_terminates.
 Print Assumptions C08_quota_threshold.
+Print Assumptions C08_no_over_quota_value_passed_on.
+Print Assumptions C08_statement_result_fits.
+Print Assumptions C08_quota_off_identity.
 Print Assumptions C08_repetition_refuses_first.
 Print Assumptions C08_repetition_refuses_first_here.
 Print Assumptions C08_repetition_never_over_quota.
